@@ -37,9 +37,11 @@ META = {
     "design_ref": "DESIGN.md 2 C13",
 }
 
-QUICK_I = ["MC_window_quick", "MC_live_quick", "MC_topo_quick", "MC_keys_quick", "MC_conc_quick"]
+QUICK_I = ["MC_window_quick", "MC_live_quick"]
+QUICK_I2 = ["MC_topo_quick", "MC_keys_quick", "MC_conc_quick"]
 QUICK_P = ["MC_part_quick", "MC_partupd_quick"]
-THOROUGH_I = ["MC_window_thorough", "MC_live_thorough", "MC_topo_thorough", "MC_keys_thorough", "MC_conc_thorough"]
+THOROUGH_I = ["MC_window_thorough", "MC_live_thorough"]
+THOROUGH_I2 = ["MC_topo_thorough", "MC_keys_thorough", "MC_conc_thorough"]
 THOROUGH_P = ["MC_part_thorough", "MC_partupd_thorough"]
 
 VIOLATION_CLASSES = {"answer", "concurrent"}   # the property itself, observed on the real code
@@ -52,12 +54,22 @@ def _tmo(t):
     return int(os.environ.get("VERIF_C13_TLC_TIMEOUT", "0")) or t
 
 
+WITNESSES = {"MC_witness_stalehit": "NeverStaleHit", "MC_witness_refused": "NeverRefusedFill",
+             "MC_witness_window": "NeverLbHitAtOtherTime"}
+
+
 def _model_check(ctx, module, cfgs, out):
     try:
+        if module == "RingClientMC":
+            # non-vacuity: the situations the invariants are about (a cached subring with outdated states, a refused
+            # cache fill, a look-back entry valid at another query time) are reachable: TLC must find a "violation"
+            for cfg, inv in WITNESSES.items():
+                r = ctx.tlc("ringclient", module, cfg=cfg + ".cfg", timeout=_tmo(300), count=False, workers=2)
+                out.append(("witness:" + inv, r))
         for cfg in cfgs:
             r = ctx.tlc("ringclient", module, cfg=cfg + ".cfg", timeout=_tmo(1500 if ctx.tier == "thorough" else 400),
                         coverage=(ctx.tier == "thorough"), count=False,
-                        workers=int(os.environ.get("VERIF_C13_WORKERS", "0")) or None)
+                        workers=int(os.environ.get("VERIF_C13_WORKERS", "0")) or min(8, verif.default_workers()))
             out.append((cfg, r))
             if not r.ok:
                 return
@@ -134,8 +146,9 @@ def run(ctx):
                        "lastTopologyChange stamps of different updates differ (bubble clock advanced between updates)",
                        "instance tokens unique across instances; InstanceDesc.Versions not varied"]
     quick = ctx.tier == "quick"
-    mc_i, mc_p = [], []
+    mc_i, mc_i2, mc_p = [], [], []
     threads = [threading.Thread(target=_model_check, args=(ctx, "RingClientMC", QUICK_I if quick else THOROUGH_I, mc_i)),
+               threading.Thread(target=_model_check, args=(ctx, "RingClientMCb", QUICK_I2 if quick else THOROUGH_I2, mc_i2)),
                threading.Thread(target=_model_check, args=(ctx, "PartitionClientMC", QUICK_P if quick else THOROUGH_P, mc_p))]
     if os.environ.get("VERIF_C13_SKIP_MC"):   # development only (mutation runs): never gives exit 0
         threads = []
@@ -147,23 +160,28 @@ def run(ctx):
         ti, tp, recs = ctx.path("trace_i.ndjson"), ctx.path("trace_p.ndjson"), ctx.path("recs.ndjson")
         env = {"VERIF_TRACE_I": ti, "VERIF_TRACE_P": tp, "VERIF_RECS": recs}
         if quick:
-            env.update({"VERIF_SYSCFGS": 1, "VERIF_RANDOM": 3, "VERIF_CONC": 2, "VERIF_ROUNDS": 10})
+            env.update({"VERIF_SYSCFGS": 1, "VERIF_RANDOM": 3, "VERIF_CONC": 2, "VERIF_ROUNDS": 10, "VERIF_GATED": 2})
         else:
-            env.update({"VERIF_SYSCFGS": 4, "VERIF_RANDOM": 40, "VERIF_CONC": 10, "VERIF_ROUNDS": 25})
+            env.update({"VERIF_SYSCFGS": 4, "VERIF_RANDOM": 40, "VERIF_CONC": 10, "VERIF_ROUNDS": 25, "VERIF_GATED": 12})
         res = ctx.run_harness("c13", "^TestRecord$", env=env, timeout=int(os.environ.get("VERIF_C13_HARNESS_TIMEOUT", "900")))
     finally:
         for t in threads:
             t.join()
+    mc_i = mc_i + mc_i2
     for cfg, r in mc_i + mc_p:
         if cfg == "exception":
             raise verif.Inconclusive("model checking failed: %r" % (r,))
+        if cfg.startswith("witness:"):
+            if r.violated != cfg[8:]:
+                raise verif.Inconclusive("vacuity: TLC did not reach a state refuting %s (%s)" % (cfg[8:], r.error or r.violated or "no error"))
+            continue
         ctx.states += r.distinct
         ctx.transitions += r.generated
         ctx.require_tlc_ok(r, cfg)
     # vacuity guard (thorough tier runs with -coverage): an action that no configuration of its module ever took
     for module, runs in (("RingClientMC", mc_i), ("PartitionClientMC", mc_p)):
         if runs and ctx.tier == "thorough":
-            never = set.intersection(*[set(r.coverage_zero) for _cfg, r in runs])
+            never = set.intersection(*[set(r.coverage_zero) for _cfg, r in runs if not _cfg.startswith("witness:")])
             if never:
                 raise verif.Inconclusive("%s: actions with zero coverage in every configuration: %s" % (module, sorted(never)))
     ctx.exhaustive = bool(mc_i) and bool(mc_p)
